@@ -34,7 +34,9 @@ from c01 import C01  # noqa: E402  (the three real renderers, driven as in C01)
 
 import term_image.padding as P  # noqa: E402
 from term_image.geometry import Size  # noqa: E402
-from term_image.image import BlockImage, ITerm2Image, KittyImage  # noqa: E402
+from term_image.image import BlockImage, ImageIterator, ITerm2Image, KittyImage, Size as ImgSize  # noqa: E402
+from contextlib import redirect_stdout  # noqa: E402
+from PIL import Image as PILImage  # noqa: E402
 from term_image.padding import AlignedPadding, ExactPadding, HAlign, Padding, VAlign  # noqa: E402
 from term_image.renderable import Frame, Renderable  # noqa: E402
 import term_image.renderable._renderable as _rmod  # noqa: E402
@@ -202,6 +204,67 @@ def exc_name(e: BaseException) -> str:
     return "err " + type(e).__name__
 
 
+
+# the old image API with a changing size ------------------------------------------------------
+_gif_cache: dict[str, bytes] = {}
+SIZE_ACTS = ["set_w", "set_h", "width", "height", "dynamic", "term", None, None]
+
+
+def source_image(spec: dict, nframes: int):
+    """a deterministic PIL image; an animated GIF for nframes > 1"""
+    if nframes <= 1:
+        return imgkit.make_image(spec)
+    key = json.dumps([spec.get(k) for k in ("w", "h", "pattern", "iseed")] + [nframes])
+    data = _gif_cache.get(key)
+    if data is None:
+        frames = [imgkit.make_image({**spec, "mode": "RGB", "pattern": "random", "iseed": spec["iseed"] + 7919 * i})
+                  for i in range(nframes)]
+        buf = io.BytesIO()
+        frames[0].save(buf, "GIF", save_all=True, append_images=frames[1:], duration=100, loop=0)
+        data = _gif_cache[key] = buf.getvalue()
+    return PILImage.open(io.BytesIO(data))
+
+
+def random_size_act(rng: random.Random):
+    a = rng.choice(SIZE_ACTS)
+    if a is None:
+        return None
+    if a == "dynamic":
+        return ["dynamic", rng.choice(["FIT", "FIT", "FIT_TO_WIDTH", "AUTO", "ORIGINAL"])]
+    if a == "term":
+        return ["term", rng.randrange(1, 13), rng.randrange(1, 13)]
+    return [a, rng.randrange(1, 9)]
+
+
+def apply_size_act(im, act) -> None:
+    """change the image size the way a user does; an invalid request leaves the size as it was"""
+    if not act:
+        return
+    try:
+        if act[0] == "set_w":
+            im.set_size(width=act[1])
+        elif act[0] == "set_h":
+            im.set_size(height=act[1])
+        elif act[0] == "width":
+            im.width = act[1]
+        elif act[0] == "height":
+            im.height = act[1]
+        elif act[0] == "dynamic":
+            im.size = ImgSize[act[1]]
+        elif act[0] == "term":
+            set_term(act[1], act[2])
+    except Exception:
+        pass
+
+
+def spec_string(d: dict) -> str:
+    """`[h_align][width][.[v_align][height]]` for a case in 'spec' mode"""
+    spec = (d["h"] or "") + ("" if d["w"] is None else str(d["w"]))
+    if d["v"] is not None or d["ht"] is not None:
+        spec += "." + (d["v"] or "") + ("" if d["ht"] is None else str(d["ht"]))
+    return spec
+
+
 class Dummy(Renderable):
     """a renderable whose frame is a given render output"""
 
@@ -253,6 +316,7 @@ class C05(Property):
         self._collect: list = []
         self._collecting = False
         self._prefetched = False
+        self._side: dict = {}
 
     # -- translator ---------------------------------------------------------------------
     def gen_constants(self):
@@ -331,7 +395,8 @@ class C05(Property):
         while True:
             tw, th = rng.randrange(1, 13), rng.randrange(1, 13)
             op = rng.choice(["pad"] * 6 + ["padl", "padl", "render", "render", "render", "format", "format", "format",
-                                           "chkfmt", "dims", "psize", "toexact", "resolve"])
+                                           "chkfmt", "dims", "psize", "toexact", "resolve",
+                                           "fmt2", "fmt2", "draw", "draw", "iter", "iter", "iter", "adraw"])
             inner = rng.choice(pool)
             d = {"op": op, "tw": tw, "th": th}
             if op in ("dims", "psize", "toexact", "resolve"):
@@ -342,6 +407,54 @@ class C05(Property):
                     while d["p"]["t"] != "A":
                         d["p"] = random_padding(rng, rw, rh, tw, th)
                 kind = f"{op}-{d['p']['t']}"
+            elif op == "adraw":
+                # animated draw(): the frames are drawn over each other (text style; the size is pinned)
+                tw, th = rng.randrange(8, 17), rng.randrange(8, 17)
+                d.update(tw=tw, th=th, mode="direct")
+                inner = {"w": 8, "h": 8, "mode": "RGB", "pattern": "random", "iseed": rng.randrange(1 << 20), "style": "block",
+                         "cols": rng.randrange(1, 6), "lines": 8, "bg": None, "kitty_term": rng.random() < 0.3}
+                d.update(inner=inner, nframes=rng.choice([2, 3]), repeat=rng.choice([1, 1, 2]), cached=rng.choice([False, True, 3]),
+                         h=rng.choice(PYARGS_H[:7]), v=rng.choice(PYARGS_V[:7]),
+                         w=rng.choice([0, 1, 3, 6, tw, tw + 1, -1, rng.randrange(1, tw + 1)]),
+                         ht=rng.choice([-2, 1, 2, 3, 5, th, th + 1, 0, rng.randrange(1, th + 1)]),
+                         acts=[rng.choice([None, ["set_w", rng.randrange(1, 7)], ["set_h", rng.randrange(1, 5)]])])
+                kind = "adraw-block"
+            elif op in ("fmt2", "draw", "iter"):
+                # every entry point of the old API that pads an image render, with the image size
+                # changed (set_size / width / height / dynamic size + terminal resize) before the call
+                # — for the iterator: between next() calls
+                inner = dict(rng.choice([s for s in pool if s["style"] != "chars"]))
+                for k in ("alpha", "split", "mix", "compress", "blend", "z", "jpeg"):
+                    inner.pop(k, None)
+                if inner["style"] != "block":
+                    inner["method"] = "lines" if inner["method"] == "lines" else "whole"
+                d["inner"] = inner
+
+                def dim2(term):
+                    return rng.choice([0, 1, 2, 3, 5, 7, 9, 12, rng.randrange(0, 14), term, term + 1])
+                if op == "draw":
+                    mode = rng.choice(["direct", "direct", "direct", "bad"])
+                    if mode == "direct":
+                        d.update(h=rng.choice(PYARGS_H[:7]), v=rng.choice(PYARGS_V[:7]),
+                                 w=rng.choice([dim2(tw), 0, -1, -tw, tw + 1]), ht=rng.choice([dim2(th), -2, 0, -th - 1]))
+                    else:
+                        d.update(h=rng.choice(PYARGS_H), v=rng.choice(PYARGS_V), w=rng.choice([dim2(tw), 1.5, None, "3"]),
+                                 ht=rng.choice([dim2(th), dim2(th), 2.0]))
+                else:
+                    mode = "spec"
+                    d.update(h=rng.choice(["<", "|", ">", None]), v=rng.choice(["^", "-", "_", None]),
+                             w=rng.choice([None, dim2(tw), dim2(tw)]), ht=rng.choice([None, dim2(th), dim2(th)]))
+                d["mode"] = mode
+                if op == "iter":
+                    d["nframes"] = rng.choice([2, 2, 3])
+                    d["repeat"] = rng.choice([2, 2, 2, 1, 3, -1])
+                    d["cached"] = rng.choice([True, True, False, False, 5, 2])
+                    nsteps = rng.choice([2 * d["nframes"], 2 * d["nframes"] + 1, d["nframes"] + 1, 3 * d["nframes"] + 1])
+                    d["acts"] = [None] + [random_size_act(rng) for _ in range(nsteps - 1)]
+                    kind = f"iter-{inner['style']}-{'cached' if d['cached'] is not False else 'uncached'}"
+                else:
+                    d["acts"] = [random_size_act(rng) for _ in range(rng.choice([0, 1, 2]))]
+                    kind = f"{op}-{mode}-{inner['style']}"
             elif op in ("pad", "render"):
                 r = inner_render(inner)
                 d.update(inner=inner, p=random_padding(rng, r["rw"], r["rh"], tw, th))
@@ -423,6 +536,150 @@ class C05(Property):
         else:
             env.set_env(cell_size=spec["cell"], name=spec["term"])
 
+    def _new_image(self, spec: dict, nframes: int = 1):
+        """a fresh image instance (its size is going to be changed) → (image, terminal kind, style spec)"""
+        self._old_env(spec)
+        img = source_image(spec, nframes)
+        style = spec["style"]
+        if style == "block":
+            im = BlockImage(img)
+            im.set_size(width=spec["cols"]) if spec["cols"] <= 2 * spec["lines"] else im.set_size(height=spec["lines"])
+            return im, ("kitty" if spec["kitty_term"] else "other"), ""
+        im = (KittyImage if style == "kitty" else ITerm2Image)(img)
+        im.set_size(width=spec["cols"]) if spec["cols"] <= spec["lines"] else im.set_size(height=spec["lines"])
+        return im, spec["term"], f"+{'L' if spec['method'] == 'lines' else 'W'}"
+
+    @staticmethod
+    def _plain(im, kind: str, sa: str) -> dict:
+        """the image's current frame rendered with its current size, unpadded (spec `1.1`)"""
+        out = format(im, "1.1" + sa)
+        rw, rh = im.rendered_size
+        toks = tk.tokenize(out)
+        return {"out": out, "rw": rw, "rh": rh, "kind": kind, "toks": toks, "xwire": xwire(toks)}
+
+    def _fmt_args(self, d: dict):
+        """(driver argument string, keyword arguments of the real call)"""
+        if d["mode"] == "spec":
+            w_eff = d["w"] if d["w"] is not None else 0
+            h_eff = d["ht"] if d["ht"] is not None else -2
+            return (f"{pyarg_wire(d['h'])} some {w_eff} {pyarg_wire(d['v'])} some {h_eff} {d['tw']} {d['th']}",
+                    {k: v for k, v in (("h_align", d["h"]), ("width", d["w"]), ("v_align", d["v"]), ("height", d["ht"])) if v is not None})
+        return (f"{pyarg_wire(d['h'])} {optint_wire(d['w'])} {pyarg_wire(d['v'])} {optint_wire(d['ht'])} {d['tw']} {d['th']}",
+                {"h_align": d["h"], "width": d["w"], "v_align": d["v"], "height": d["ht"]})
+
+    def _impl_entry(self, case: Case) -> str:
+        d = case.data
+        op = d["op"]
+        args, kw = self._fmt_args(d)
+        try:
+            im, kind, sa = self._new_image(d["inner"], d.get("nframes", 1))
+            if op == "iter":
+                return self._impl_iter(case, im, kind, sa, args)
+            if op == "adraw":
+                return self._impl_adraw(case, im, kind, sa, args, kw)
+            for act in d["acts"]:
+                apply_size_act(im, act)
+            set_term(d["tw"], d["th"])
+            r = self._plain(im, kind, sa)
+        except tk.TokenizeError as e:
+            case.line = f"untokenizable inner {d['inner'].get('style')}"
+            d["_tokerr"] = str(e)
+            return "err TokenizeError"
+        self._side[id(case)] = [r]
+        d["_rw"], d["_rh"], d["_kind"] = r["rw"], r["rh"], kind
+        if op == "draw":
+            case.line = f"draw {args} {r['rw']} {r['rh']} {r['xwire']}"
+            buf = io.StringIO()
+            style_kw = {} if not sa else {"method": d["inner"]["method"]}
+            try:
+                with redirect_stdout(buf):
+                    im.draw(kw["h_align"], kw["width"], kw["v_align"], kw["height"], check_size=False, **style_kw)
+            except Exception as e:
+                return exc_name(e)
+            d["_out"] = buf.getvalue()
+            return "ok " + sx(d["_out"])
+        # fmt2: format(image, spec), the f-string form and str.format must agree
+        case.line = f"format {args} {r['rw']} {r['rh']} {r['xwire']}"
+        spec = spec_string(d) + sa
+        d["_spec"] = spec
+        try:
+            out = format(im, spec)
+        except Exception as e:
+            return exc_name(e)
+        d["_out"] = out
+        out2, out3 = f"{im:{spec}}", "{:{}}".format(im, spec)
+        if out2 != out or out3 != out:
+            return f"ok {sx(out)} f-string-or-str.format-differs-from-format()"
+        return "ok " + sx(out)
+
+    def _impl_adraw(self, case: Case, im, kind: str, sa: str, args: str, kw: dict) -> str:
+        d = case.data
+        for act in d["acts"]:
+            apply_size_act(im, act)
+        set_term(d["tw"], d["th"])
+        cached = d["cached"]
+        cw = ("b1" if cached else "b0") if isinstance(cached, bool) else f"c{cached}"
+        nf = im.n_frames
+        plains = []
+        for n in range(nf):
+            im.seek(n)
+            plains.append(self._plain(im, kind, sa))
+        im.seek(0)
+        count = d["repeat"] * nf
+        steps = [plains[k % nf] for k in range(count)]
+        self._side[id(case)] = steps
+        d["_nf"], d["_kind"] = nf, kind
+        case.line = (f"adraw {args} {cw} {d['repeat']} {nf} {len(steps)} "
+                     + " ".join(f"{r['rw']} {r['rh']} {r['xwire']}" for r in steps))
+        buf = io.StringIO()
+        real_time = _cmod.time
+        _cmod.time = type("VirtualTime", (), {"time": staticmethod(lambda: 0.0), "sleep": staticmethod(lambda s: None)})
+        try:
+            with redirect_stdout(buf):
+                im.draw(kw["h_align"], kw["width"], kw["v_align"], kw["height"], animate=True, repeat=d["repeat"], cached=cached)
+        except Exception as e:
+            return exc_name(e)
+        finally:
+            _cmod.time = real_time
+        d["_out"] = buf.getvalue()
+        return "ok " + sx(d["_out"])
+
+    def _impl_iter(self, case: Case, im, kind: str, sa: str, args: str) -> str:
+        d = case.data
+        set_term(d["tw"], d["th"])
+        cached = d["cached"]
+        cw = ("b1" if cached else "b0") if isinstance(cached, bool) else f"c{cached}"
+        nf = im.n_frames
+        head = f"iter {args} {cw} {d['repeat']} {nf}"
+        spec = spec_string(d) + sa
+        d["_spec"] = spec
+        try:
+            it = ImageIterator(im, d["repeat"], spec, cached)
+        except Exception as e:
+            case.line = head + " 0"
+            return exc_name(e)
+        steps, frames = [], []
+        try:
+            for act in d["acts"]:
+                apply_size_act(im, act)
+                try:
+                    fr = next(it)
+                except StopIteration:
+                    fr = None
+                steps.append(self._plain(im, kind, sa))  # the size and the render at the moment of this next()
+                frames.append(fr)
+        except Exception as e:
+            case.line = head + " 0"
+            return exc_name(e)
+        finally:
+            it.close()
+        self._side[id(case)] = steps
+        d["_frames"] = frames
+        d["_sizes"] = [[r["rw"], r["rh"]] for r in steps]
+        d["_nf"], d["_kind"] = nf, kind
+        case.line = head + f" {len(steps)} " + " ".join(f"{r['rw']} {r['rh']} {r['xwire']}" for r in steps)
+        return "ok " + "|".join("stop" if fr is None else sx(fr) for fr in frames)
+
     # -- run the real code ----------------------------------------------------------------
     def impl(self, case: Case) -> str:
         r = self._impl(case)
@@ -432,6 +689,8 @@ class C05(Property):
     def _impl(self, case: Case) -> str:
         d = case.data
         op = d["op"]
+        if op in ("fmt2", "draw", "iter", "adraw"):
+            return self._impl_entry(case)
         if op in ("dims", "psize", "toexact"):
             case.line = f"{op} {padding_wire(d['p'])} {d['rw']} {d['rh']}"
             try:
@@ -629,6 +888,8 @@ class C05(Property):
         if op == "padl":
             where = f"padl/{d['fill']}/{d['l']},{d['tp']},{d['r']},{d['b']}/{d['_rw']}x{d['_rh']}/{d['inner']['style']}"
             return self._screen_check(case, where, FILLS[d["fill"]], (d["l"], d["tp"], d["r"], d["b"]))
+        if op in ("fmt2", "draw", "iter", "adraw"):
+            return self._oracle_entry(case, impl_result)
         if op in ("chkfmt", "format"):
             where = f"{op}/{d['mode']}/{d['h']!r},{d['w']!r},{d['v']!r},{d['ht']!r}/term{d['tw']}x{d['th']}"
             hs = {"<": "<", "|": "|", ">": ">", "left": "<", "center": "|", "right": ">", None: None}
@@ -658,12 +919,78 @@ class C05(Property):
             return self._screen_check(case, where + f"/{d['_rw']}x{d['_rh']}", " ", want_dims(p, d["_rw"], d["_rh"]))
         return None
 
+    def _oracle_entry(self, case: Case, impl_result: str):
+        """format()/f-string, draw() and ImageIterator: the box oracle on what each entry point returned,
+        against the image's size at the moment of the call (of that next())"""
+        d = case.data
+        op = d["op"]
+        style = d["inner"]["style"]
+        where = f"{op}/{d['mode']}/{d['h']!r},{d['w']!r},{d['v']!r},{d['ht']!r}/term{d['tw']}x{d['th']}/{style}"
+        hs = {"<": "<", "|": "|", ">": ">", "left": "<", "center": "|", "right": ">", None: None}
+        vs = {"^": "^", "-": "-", "_": "_", "top": "^", "middle": "-", "bottom": "_", None: None}
+        w_in = d["w"] if not (d["mode"] == "spec" and d["w"] is None) else 0
+        h_in = d["ht"] if not (d["mode"] == "spec" and d["ht"] is None) else -2
+        bad_type = not isinstance(d["h"], (str, type(None))) or not isinstance(d["v"], (str, type(None))) \
+            or not isinstance(w_in, int) or not isinstance(h_in, int)
+        bad_value = (isinstance(d["h"], str) and d["h"] not in hs) or (isinstance(d["v"], str) and d["v"] not in vs)
+        if bad_type or bad_value:
+            if not impl_result.startswith("err "):
+                return Failure(f"accepts-bad/{where}", f"invalid formatting arguments accepted: {impl_result[:60]}")
+            return None
+        if op == "adraw" and (w_in > d["tw"] or h_in > d["th"]):
+            if impl_result != "err ValueError":
+                return Failure(f"adraw-big/{where}", f"padding size above the terminal size gave {impl_result[:60]}")
+            return None
+        if op == "draw" and w_in > d["tw"]:
+            if impl_result != "err ValueError":
+                return Failure(f"draw-wide/{where}", f"padding width above the terminal width gave {impl_result[:60]}")
+            return None
+        if not impl_result.startswith("ok "):
+            return Failure(f"raises/{where}", impl_result)
+        width = w_in if w_in > 0 else max(d["tw"] + w_in, 1)
+        height = h_in if h_in > 0 else max(d["th"] + h_in, 1)
+        p = {"t": "A", "w": width, "h": height, "ha": {"<": "L", ">": "R"}.get(hs[d["h"]], "C"),
+             "va": {"^": "T", "_": "B"}.get(vs[d["v"]], "M")}
+        side = self._side.get(id(case))
+        if side is None:
+            return None
+        if op == "adraw":
+            out = d["_out"]
+            if not out.endswith("\x1b[m\n"):
+                return Failure(f"draw-tail/{where}", f"draw() output does not end with SGR 0 and a newline: {out[-12:]!r}")
+            inner = side[-1]  # the last frame drawn stays on screen, in the one box all frames share
+            return self._box_check(case, where + f"/{inner['rw']}x{inner['rh']}/rep{d['repeat']}x{d['_nf']}", out[:-4], inner, " ",
+                                   want_dims(p, inner["rw"], inner["rh"]), animation=True)
+        if op != "iter":
+            if impl_result.count(" ") > 1:
+                return Failure(f"forms-differ/{where}", impl_result.split(" ", 2)[2] + f" (spec {d.get('_spec')!r})")
+            out = d["_out"]
+            if op == "draw":
+                if not out.endswith("\x1b[m\n"):
+                    return Failure(f"draw-tail/{where}", f"draw() output does not end with SGR 0 and a newline: {out[-12:]!r}")
+                out = out[:-4]
+            inner = side[0]
+            return self._box_check(case, where + f"/{inner['rw']}x{inner['rh']}", out, inner, " ",
+                                   want_dims(p, inner["rw"], inner["rh"]))
+        frames, nf, rep = d["_frames"], d["_nf"], d["repeat"]
+        for k, (fr, inner) in enumerate(zip(frames, side)):
+            ended = rep > 0 and k >= rep * nf
+            wk = f"{where}/{'cached' if d['cached'] is not False else 'uncached'}/rep{rep}/frame{k}of{nf}/sizes{d['_sizes'][:k + 1]}".replace(" ", "")
+            if ended != (fr is None):
+                return Failure(f"iter-end/{wk}", "StopIteration " + ("missing" if ended else "too early"))
+            if fr is None:
+                continue
+            f = self._box_check(case, wk, fr, inner, " ", want_dims(p, inner["rw"], inner["rh"]), tag=k + 1, nplaces=1)
+            if f is not None:
+                return f
+        return None
+
     # the screen oracle: batched over all cases seen by impl() ------------------------------
     def _inner_of(self, d):
         return self._old_image(d["inner"])[1] if d["op"] == "format" else inner_render(d["inner"])
 
-    def _places(self, case: Case, Wt: int, Ht: int):
-        rng = random.Random(int(case.key(), 16) & 0xFFFFFF)
+    def _places(self, case: Case, Wt: int, Ht: int, tag: int = 0):
+        rng = random.Random((int(case.key(), 16) & 0xFFFFFF) + 7717 * tag)
         out = []
         for k in range(2):
             W = Wt + (0 if k == 0 else rng.choice([0, 1, 5]))
@@ -676,8 +1003,13 @@ class C05(Property):
 
     def _screen_check(self, case: Case, where: str, fill: str, want):
         d = case.data
-        out = d["_out"]
-        inner = self._inner_of(d)
+        return self._box_check(case, where, d["_out"], self._inner_of(d), fill, want)
+
+    def _box_check(self, case: Case, where: str, out: str, inner: dict, fill: str, want, tag: int = 0, nplaces: int = 2,
+                   animation: bool = False):
+        """THE BOX ORACLE: `out` run on the terminal model occupies exactly the padded box, holds the
+        render `inner` unchanged at the offset `want` dictates, and the fill (or nothing) elsewhere"""
+        d = case.data
         rw, rh, kind = inner["rw"], inner["rh"], inner["kind"]
         l, t, r, b = want
         Wt, Ht = l + rw + r, t + rh + b
@@ -685,9 +1017,11 @@ class C05(Property):
             toks = tk.tokenize(out)
         except tk.TokenizeError as e:
             return Failure(f"tokenize/{where}", f"padded output is not a sequence of complete control sequences: {e}")
-        if out.count("\n") != Ht - 1:
-            return Failure(f"lines/{where}", f"{out.count(chr(10)) + 1} lines, expected {Ht}")
-        places = self._places(case, Wt, Ht)
+        if not animation and out.count("\n") != Ht - 1:
+            return Failure(f"lines/{where}", f"{out.count(chr(10)) + 1} lines, expected {Ht} (render {rw}x{rh}, margins {want})")
+        places = self._places(case, Wt, Ht, tag)[:nplaces]
+        if animation:  # frames after the first return to column 0
+            places = [(W, H, row, 0, top) for (W, H, row, x, top) in places]
         reqs = []
         for (W, H, row, x, top) in places:
             reqs.append(f"term.run {W} {H} {kind} {row} {x} {top} {x} {tk.wire(toks)}")
